@@ -3,8 +3,8 @@
 # Runs the quick checks of the given properties against a seeded change WITHOUT touching /repo:
 # a scratch worktree of /repo HEAD gets the patch, a scratch copy of /verif gets its harness pointed at it.
 # Output: /verif/work/mutants/<name>.<prop>.log and a summary line on stdout.
-N=$1; shift
-S=/tmp/mx/$N; rm -rf $S; mkdir -p $S /verif/work/mutants
+N=$1; shift  # scratch directory private to this invocation
+S=/tmp/mx/$N.$$; rm -rf $S; mkdir -p $S /verif/work/mutants
 git -C /repo worktree prune
 git -C /repo worktree add -q --detach $S/repo HEAD || exit 2
 cp /repo/Cargo.lock $S/repo/
